@@ -220,6 +220,40 @@ func runC02(w *vx.W) {
 	}
 	mixFamily(w, mixLen)
 	c10MixChains(w) // the same words as members of a chain: values and routing must not depend on an earlier member
+	// developer fields in every number from 1 to 255 (sizes 1 and 3), on a known and on an unknown message, between
+	// records of another local type: skipped without disturbing anything (judged by the reference decoder)
+	for n := 1; n <= 255; n++ {
+		for v := 0; v < 4; v++ {
+			if !w.Mine(int64(n*4 + v)) {
+				continue
+			}
+			g := uint16(20)
+			if v >= 2 {
+				g = 0xFF00
+			}
+			sz := byte(1 + 2*(v%2))
+			if int(sz)*n > 60000 {
+				continue
+			}
+			d := fitmodel.Def{Local: 2, Big: v%2 == 1, Global: g, Fields: []fitmodel.FieldDef{{Num: 3, Size: 1, Base: fitmodel.Uint8}, {Num: 4, Size: 1, Base: fitmodel.Uint8}}, DevFlag: true}
+			for i := 0; i < n; i++ {
+				d.Dev = append(d.Dev, fitmodel.DevDef{Num: byte(i), Size: sz, Idx: byte(i % 4)})
+			}
+			body := make([]byte, d.DataLen())
+			for i := range body {
+				body[i] = byte(0x40 + i%60) // as record headers these would be definitions
+			}
+			body[0], body[1] = 77, 88
+			stream := fitmodel.File(fitmodel.DefaultHeader, append(fitmodel.FileIdRecords(0, 4), recordDef(1, false).Bytes(), recordData(1, false, 1000000000, 60, 1),
+				d.Bytes(), fitmodel.Data(2, body), recordData(1, false, 1000000001, 61, 2), fitmodel.Data(2, body), recordData(1, false, 1000000002, 62, 3))...)
+			w.Eval(1)
+			w.Trace(1)
+			w.Fam("developer-field-counts", 1)
+			if msg := mixCheck(stream); msg != "" {
+				w.Violation("developer-field-count", fmt.Sprintf("%d developer fields of %d byte(s) on message %#x (big-endian=%v): %s", n, sz, g, v%2 == 1, msg), mixReplayT{Mix: true, Word: fmt.Sprintf("%d developer fields", n), Stream: hex.EncodeToString(stream)})
+			}
+		}
+	}
 	// ---- record independence on the device-file corpus and the shared streams
 	for i, path := range corpusFiles() {
 		if !w.Mine(int64(i)) {
